@@ -38,6 +38,11 @@ pub fn tree_space(tier: Tier, uidrun: bool) -> TreeSpace {
 
 /// every tree plus, one entry at a time, a non-default mode (dir 0o700 / file 0o600): calls that derive
 /// a mode from an existing entry (copy creating parents, chmod presets, ...) only show on such trees
+/// the kernel refused the call to a non-root process for lack of a permission bit, Memfs carried it out
+fn denied_on_disk_only(od: &Outcome, om: &Outcome, euid: u32) -> bool {
+    euid != 0 && !od.ok && om.ok && od.msg.contains("Permission denied")
+}
+
 pub fn with_mode_variants(trees: Vec<Tree>) -> Vec<Tree> {
     let mut out = vec![];
     for t in trees {
@@ -48,6 +53,12 @@ pub fn with_mode_variants(trees: Vec<Tree>) -> Vec<Tree> {
             let n = v.nodes.get_mut(&k).unwrap();
             n.mode = if n.is_dir() { 0o700 } else { 0o600 };
             out.push(v);
+            // a file its owner may not write (the kernel enforces this for the uid-1000 workers)
+            if t.nodes[&k].is_file() {
+                let mut v = t.clone();
+                v.nodes.get_mut(&k).unwrap().mode = 0o444;
+                out.push(v);
+            }
         }
     }
     out
@@ -432,6 +443,8 @@ pub fn worker(w: &mut WorkerCtx) {
             let name = name.as_str();
             if od.panicked() || om.panicked() {
                 w.vio(&format!("C02 {} panic [{}]", name, cls), || format!("{}: stdfs {} / memfs {}", ctx_txt(), od.brief(), om.brief()), case);
+            } else if denied_on_disk_only(&od, &om, euid) {
+                w.vio(&format!("C02 permissions-not-enforced-by-memfs {} [{}]", name, cls), || format!("{}: Stdfs returned {} but Memfs returned {}", ctx_txt(), unroot(&od.brief(), &sbr), unroot(&om.brief(), &sbr)), case);
             } else if od.ok != om.ok {
                 w.vio(
                     &format!("C02 {} result stdfs={} memfs={} [{}]", name, if od.ok { "Ok" } else { "Err" }, if om.ok { "Ok" } else { "Err" }, cls),
@@ -457,6 +470,9 @@ pub fn worker(w: &mut WorkerCtx) {
                     let partial = !od.ok && !om.ok && matches!(ops_rel[oi], Op::Copy(..) | Op::CopyB(..) | Op::Chmod(..) | Op::ChmodB(..) | Op::Chown(..) | Op::ChownB(..));
                     if partial {
                         w.count("failed_multi_entry_calls_tree_not_compared", 1);
+                    } else if denied_on_disk_only(&od, &om, euid) {
+                        // reported above under its own signature; the trees differ by what Memfs went on to do
+                        w.count("permission_denied_on_disk_only", 1);
                     } else if let Some((c, detail)) = tree_diff(d, &m, owners, euid, egid) {
                         w.vio(&format!("C02 {} tree:{} (results stdfs={} memfs={}) [{}]", name, c, if od.ok { "Ok" } else { "Err" }, if om.ok { "Ok" } else { "Err" }, cls), || format!("{}: resulting trees differ: {} (Stdfs {} / Memfs {})", ctx_txt(), detail, unroot(&od.brief(), &sbr), unroot(&om.brief(), &sbr)), case);
                     }
@@ -554,6 +570,10 @@ pub fn worker(w: &mut WorkerCtx) {
             let ctx_txt = || format!("history {:?} from the empty sandbox (uid {}); tree before the last call [{}]", hist, euid, cur.render());
             if od.panicked() || om.panicked() {
                 w.vio(&format!("C02 {} panic [{}]", name, cls), || format!("{}: stdfs {} / memfs {}", ctx_txt(), od.brief(), om.brief()), case);
+                break;
+            }
+            if denied_on_disk_only(&od, &om, euid) {
+                w.vio(&format!("C02 permissions-not-enforced-by-memfs {} [{}]", name, cls), || format!("{}: Stdfs returned {} but Memfs returned {}", ctx_txt(), unroot(&od.brief(), &sbr), unroot(&om.brief(), &sbr)), case);
                 break;
             }
             if od.ok != om.ok {
